@@ -16,16 +16,23 @@ import (
 // independent frame implementation accepts the consumed bytes and yields the same output.
 
 type frameSrc struct {
-	Kind string         `json:"kind"` // writer | enc
-	Opts wopts          `json:"opts,omitempty"`
-	Data gen.Data       `json:"data,omitempty"`
-	Del  delivery       `json:"delivery,omitempty"`
-	Spec *gen.FrameSpec `json:"spec,omitempty"`
+	Oversize int            `json:"oversize,omitempty"` // enc only: append a block that decodes to the block maximum + this many bytes
+	Kind     string         `json:"kind"`               // writer | enc
+	Opts     wopts          `json:"opts,omitempty"`
+	Data     gen.Data       `json:"data,omitempty"`
+	Del      delivery       `json:"delivery,omitempty"`
+	Spec     *gen.FrameSpec `json:"spec,omitempty"`
 }
 
 func (s frameSrc) build() ([]byte, []byte, *stat.Failure) {
 	if s.Kind == "enc" {
-		z, content := s.Spec.Build()
+		spec := *s.Spec
+		if s.Oversize > 0 {
+			// hostile: a compressed block whose sequences produce more than the declared block maximum
+			spec.Blocks = append(append([]gen.BlockSpec(nil), spec.Blocks...), gen.BlockSpec{Seqs: []gen.SeqSpec{
+				{LitN: 8, LitSeed: 5, LitKind: "text", Off: 3, MLen: ref.BlockMaxOfCode(spec.BSCode) + s.Oversize - 8 - 5}, {LitN: 5, LitSeed: 6, LitKind: "text"}}})
+		}
+		z, content := spec.Build()
 		return z, content, nil
 	}
 	data := s.Data.Build()
@@ -65,6 +72,11 @@ func applyMutations(z []byte, other []byte, ms []mutation) []byte {
 		switch m.Op {
 		case "xor":
 			out[off] ^= m.Val
+		case "zero":
+			// a whole field overwritten with zero bytes
+			for k := off; k < off+m.Len && k < n; k++ {
+				out[k] = 0
+			}
 		case "set":
 			out[off] = m.Val
 		case "del":
@@ -110,6 +122,9 @@ func drawFrameSrc(t *rapid.T, label string) frameSrc {
 		s.Kind = "enc"
 		spec := gen.DrawFrameSpec(t, gen.FrameParams{Dependent: 1, MaxBlocks: 5, MaxBlockLen: 3000, Skips: true})
 		s.Spec = &spec
+		if rapid.IntRange(0, 7).Draw(t, label+".oversize?") == 0 {
+			s.Oversize = rapid.SampledFrom([]int{1, 2, 17, 4096, 65536}).Draw(t, label+".oversize")
+		}
 		return s
 	}
 	s.Kind = "writer"
@@ -164,8 +179,26 @@ func drawMutation(t *rapid.T, z []byte, fr *ref.Frame, otherLen int) mutation {
 		return f
 	}
 	regs := blockRegions(fr)
-	op := rapid.SampledFrom([]string{"xor", "xor", "xor", "xor", "set", "set", "del", "dup", "swap", "splice", "ins", "blockdel", "blockdup", "blockswap"}).Draw(t, "mop")
+	op := rapid.SampledFrom([]string{"xor", "xor", "xor", "xor", "set", "set", "zero", "zero", "del", "dup", "swap", "splice", "ins", "blockdel", "blockdup", "blockswap"}).Draw(t, "mop")
 	switch op {
+	case "zero":
+		// prefer the integrity fields: a field of zeros is what "not set" looks like to sloppy code
+		var cands []ref.Field
+		for _, f := range fr.Fields {
+			switch f.Kind {
+			case "bsum", "csum", "hc", "bsize", "csize":
+				cands = append(cands, f)
+			}
+		}
+		f := pickField()
+		if len(cands) > 0 && rapid.IntRange(0, 4).Draw(t, "zero.any") != 0 {
+			f = rapid.SampledFrom(cands).Draw(t, "zero.field")
+		}
+		m.Op, m.What, m.Off, m.Len = "zero", f.Kind, f.Off, f.Len
+		if f.Kind == "any" || f.Kind == "bdata" || f.Kind == "skipdata" {
+			m.Off = f.Off + rapid.IntRange(0, f.Len-1).Draw(t, "foff")
+			m.Len = rapid.IntRange(1, 8).Draw(t, "zlen")
+		}
 	case "xor":
 		f := pickField()
 		m.Op, m.What = "xor", f.Kind
@@ -266,7 +299,10 @@ func runC05(c c05Case, rec *stat.Rec) *stat.Failure {
 		other, _, _ = c.Other.build()
 	}
 	mz := applyMutations(z, other, c.Muts)
-	unchanged := bytes.Equal(mz, z)
+	unchanged := bytes.Equal(mz, z) && c.Base.Oversize == 0
+	if c.Base.Oversize > 0 {
+		rec.Class("hostile/block-decodes-beyond-the-block-maximum")
+	}
 	rec.Eval()
 	res := readAll(mz, c.R, nil)
 	mode := fmt.Sprintf("conc>1=%v/writeto=%v", concOf(c.R.Conc) > 1, c.R.WriteTo)
@@ -344,9 +380,25 @@ const c05Rule = "valid frames (Writer with every option combination and Flush pa
 	"Oracle: a clean end of stream implies the reference accepts exactly the consumed bytes with identical output. Non-trivial = the mutated bytes differ from the " +
 	"valid frame; distinct by hash(mutated bytes, reader)."
 
+// TestC05Pinned: hostile shapes that a mutation reaches only rarely.
+func TestC05Pinned(t *testing.T) {
+	stat.For("C05").SetRule(c05Rule)
+	base := gen.FrameSpec{Version: 1, BlockIndep: true, BSCode: 4, Blocks: []gen.BlockSpec{{Seqs: []gen.SeqSpec{{LitN: 20, LitSeed: 1, LitKind: "text"}}}}}
+	for _, over := range []int{1, 17, 65536} {
+		for _, csum := range []bool{false, true} {
+			spec := base
+			spec.ContentSum = csum
+			for _, rc := range []rcfg{{Conc: 1, Sizes: []int{64 << 20}}, {Conc: 1, Sizes: []int{131072}}, {Conc: 1, Sizes: []int{65536}}, {Conc: 1, Sizes: []int{7}}, {Conc: 1, WriteTo: true}, {Conc: 4, Sizes: []int{64 << 20}}, {Conc: 2, WriteTo: true}} {
+				sp := spec
+				pinned(t, "C05", "C05/mutate", c05Case{Base: frameSrc{Kind: "enc", Spec: &sp, Oversize: over}, R: rc}, runC05)
+			}
+		}
+	}
+}
+
 func TestC05(t *testing.T) {
 	rec := stat.For("C05")
 	rec.SetRule(c05Rule)
-	rec.Require("verdict/rejected-by-both", "verdict/accepted-by-both", "mutated/csum", "mutated/bsum", "mutated/hc", "mutated/bsize", "mutated/bdata", "mutated/endmark", "mutated/block", "mutated/flg", "mutated/bd")
+	rec.Require("hostile/block-decodes-beyond-the-block-maximum", "verdict/rejected-by-both", "verdict/accepted-by-both", "mutated/csum", "mutated/bsum", "mutated/hc", "mutated/bsize", "mutated/bdata", "mutated/endmark", "mutated/block", "mutated/flg", "mutated/bd")
 	checkProp(t, "C05", "C05/mutate", pick(40000, 600000), drawC05, runC05)
 }
